@@ -478,6 +478,49 @@ def replay(mod, path):
     return 0
 
 
+def fuzz_stage(mod, seed, nproc):
+    """Coverage-guided stage of the thorough tier (vp/fuzz.py): nproc/2 libFuzzer processes, each with its own seed,
+    drive run_case through the property's byte decoder. Returns (statistics dumps, note). Failures of the stage itself
+    (atheris missing, a process dying) are reported in the note, never as violations and never as harness errors: the
+    stage adds to the search, it is not the evidence the claim rests on."""
+    import subprocess
+    runs = int(getattr(mod, 'FUZZ_RUNS', 6000))
+    k = max(1, nproc // 2)
+    work = tempfile.mkdtemp(prefix=f'vp-{mod.PROP_ID}-fuzz-')
+    procs = []
+    try:
+        for i in range(k):
+            wd = os.path.join(work, f'p{i}')
+            os.makedirs(wd)
+            out = os.path.join(wd, 'stats.json')
+            env = dict(os.environ, PYTHONHASHSEED='0', TQDM_DISABLE='1', MPLBACKEND='Agg')
+            p = subprocess.Popen([sys.executable, '-m', 'vp.fuzz', mod.PROP_ID, '--runs', str(runs), '--seed', str(int(seed) * 100 + i + 1),
+                                  '--out', out, '--work', wd], cwd=VERIF, env=env, stdout=subprocess.DEVNULL, stderr=subprocess.DEVNULL)
+            procs.append((p, out))
+        dumps, states = [], collections.Counter()
+        for p, out in procs:
+            try:
+                p.wait(timeout=3600)
+            except subprocess.TimeoutExpired:
+                p.kill()
+                states['timeout'] += 1
+            try:
+                with open(out) as f:
+                    doc = json.load(f)
+            except (OSError, ValueError):
+                states['no_output'] += 1
+                continue
+            states[doc.get('status', '?')] += 1
+            if doc.get('dump'):
+                d = doc['dump']
+                d['counters'] = {('fuzz_stage_cases' if kk == 'evaluations' else kk): v for kk, v in d['counters'].items()}
+                d['counters']['fuzz_stage_cases'] = d['evaluations']
+                dumps.append(d)
+        return dumps, f'coverage-guided stage: {k} libFuzzer processes x {runs} executions, status {dict(states)}'
+    finally:
+        shutil.rmtree(work, ignore_errors=True)
+
+
 def main(mod_name, tier, seed, nshards=None, budget=None, quiet=True):
     import multiprocessing as mp
     t0 = time.time()
@@ -499,6 +542,11 @@ def main(mod_name, tier, seed, nshards=None, budget=None, quiet=True):
         ctx = mp.get_context('fork')
         with ctx.Pool(nshards) as pool:
             dumps = pool.map(shard_main, args, chunksize=1)
+    fuzz_note = None
+    if tier == 'thorough' and getattr(mod, 'decode_bytes', None) is not None and total > 0 \
+            and os.environ.get('VERIF_FUZZ', '1') != '0':
+        fdumps, fuzz_note = fuzz_stage(mod, seed, nshards)
+        dumps = list(dumps) + fdumps
     tot = merge(dumps)
     n_regress = int(tot.counters.pop('regression_cases', 0))
 
@@ -564,6 +612,7 @@ def main(mod_name, tier, seed, nshards=None, budget=None, quiet=True):
             known_finding_hits=dict(tot.known_hits),
             shards=nshards,
             exhaustive=bool(getattr(mod, 'EXHAUSTIVE', {}).get(tier, False)),
+            **({'coverage_guided_stage': fuzz_note} if fuzz_note else {}),
         ),
         assumptions=list(getattr(mod, 'ASSUMPTIONS', [])),
         wall_s=round(wall, 2),
